@@ -98,14 +98,14 @@ def run(ctx):
     for s in ("pull", "admin", "compile"):
         ctx.count("gen_rows_" + s, sum(1 for x in rows if x["s"] == s))
     if ctx.quick:
-        waves = [dict(mounts="rotate", variants="rotate", concs="rotate", reload="rotate", admin=2, shards=16)]
+        waves = [dict(mounts="rotate", variants="rotate", concs="rotate", reload="rotate", admin=1, shards=16)]
     else:
         # every row in every wave; the full products are split over the waves (and rotate with the seed)
         waves = [dict(mounts="bare", variants="rotate", concs="all", reload="none", admin=4, shards=48),
                  dict(mounts="prefix", variants="all", concs="rotate", reload="none", admin=4, shards=64),
                  dict(mounts="shared", variants="all", concs="rotate", reload="none", admin=4, shards=64),
                  # every configuration once more, reached by a hot reload from a different configuration
-                 dict(mounts="bare", variants="all", concs="rotate", reload="all", admin=4, shards=64)]
+                 dict(mounts="bare", variants="rotate", concs="rotate", reload="all", admin=4, shards=32)]
     counters = {}
     calls = 0
     for wi, w in enumerate(waves):
